@@ -28,14 +28,14 @@ MANIFEST = {
     "note": "Corpus plans x all coordinates; monitor updates are scheduled at fixed virtual times.",
     "design_ref": "3 (C05)",
 }
-PLANS_Q = ["custom_mon", "scan", "fly", "nested", "two_runs", "keys_sparse", "collect_sd", "mon_cfg", "norewind_events"]
+PLANS_Q = ["custom_mon", "scan", "fly", "nested", "two_runs", "keys_sparse", "collect_sd", "mon_cfg", "norewind_events", "norewind_point", "clearcp_cfg"]
 PLANS_T = PLANS_Q + ["keys_sparse2", "grid", "count", "custom", "neverclose"]
 SHARD_TIMEOUT = {"quick": 900, "thorough": 3600}
 worker_init = sweepcheck.worker_init
 
 
 def gen_cases(tier, seed):
-    return sweepcheck.gen_cases(tier, seed, PLANS_Q, PLANS_T, ["pause", "suspend", "defer"],
+    return [{"plan": p_, "plain": True, "seed": seed} for p_ in (PLANS_Q if tier == "quick" else PLANS_T)] + sweepcheck.gen_cases(tier, seed, PLANS_Q, PLANS_T, ["pause", "suspend", "defer"],
                                 spec_extra={"record_interruptions": True},
                                 pairs=[("pause", "pause"), ("pause", "suspend"), ("suspend", "pause"), ("suspend", "suspend")])
 
@@ -45,7 +45,7 @@ def judge(ex, ref, case):
     key0 = f"{ex.spec['plan']}|" + ("+".join(f"{x['kind']}@{x['command']}" for x in li) or "none")
     if ex.timeout or ex.stuck or ex.final_state != "idle":
         return [R("inconclusive", key0, detail="engine did not come back idle (judged by C07)")]
-    if not li:
+    if not li and not case.get("plain"):
         return [R("skip", key0, False)]
     docs = [(i, e[1], e[2]) for i, e in enumerate(ex.log) if e[0] == "doc"]
     marks = [i for i, e in enumerate(ex.log) if (e[0] == "call" and e[1] == "resume") or
@@ -53,7 +53,7 @@ def judge(ex, ref, case):
     mon = {e[1].kwargs.get("name") for e in ex.log if e[0] == "msg" and e[1].command == "monitor"}
     coll = {"fly_stream"}
     problems, counts = numbering(docs, marks, mon, coll)
-    first_inj = next(i for i, e in enumerate(ex.log) if e[0] == "inject")
+    first_inj = next((i for i, e in enumerate(ex.log) if e[0] == "inject"), len(ex.log))
     events_before = sum(1 for i, n, d in docs if n in ("event", "event_page") and i < first_inj)
     kinds_present = sorted({("interruptions" if d.get("name") == "interruptions" else "monitor" if d.get("name") in mon else
                              "collect" if d.get("name") in coll else "bundle") for _, n, d in docs if n == "descriptor"})
@@ -85,4 +85,9 @@ def judge(ex, ref, case):
 
 
 def run_case(case):
+    if case.get("plain"):
+        from vf.sweep import reference_coords
+
+        ref, _ = reference_coords({"plan": case["plan"], "record_interruptions": True})
+        return judge(ref, ref, case)
     return sweepcheck.run_case(case, judge, decisions=(), first_decisions=("resume", "resume", "resume", "resume"))
